@@ -34,7 +34,11 @@ class C16(Prop):
         rows3 = C.read_jsonl(p3)
         if rc != 0 or not rows3:
             raise RuntimeError("C16 slow-reader harness did not run: rc=%s\n%s" % (rc, out[-2000:]))
-        return {"rows": rows + rows2 + rows3}
+        rc, out, p4, dt = C.go_test_overlay(ctx.work, "./utils/tcpbridge/connection/", "TestVerifC16Down$", OVERLAY, "C16Down.jsonl", ctx.seed, ctx.tier, timeout=600, extra_env=env)
+        rows4 = C.read_jsonl(p4)
+        if rc != 0 or not rows4:
+            raise RuntimeError("C16 server-down harness did not run: rc=%s\n%s" % (rc, out[-2000:]))
+        return {"rows": rows + rows2 + rows3 + rows4}
 
     def oracle(self, ctx, obs):
         res = []
@@ -42,6 +46,15 @@ class C16(Prop):
             if r["kind"] == "open-count":
                 if r["open"] != 0:
                     res.append(("connections-leaked", "%d of %d bridged connections are still open on the TCP server after both ends are gone" % (r["open"], r["scenarios"]), r))
+                continue
+            if r["kind"] == "server-down":
+                rp = {"driver": "TestVerifC16Down: TCP client -> tcp-bridge-frontend <=ws=> tcp-bridge-backend -> TCP server whose listener is closed", "observed": r}
+                if r.get("err"):
+                    res.append(("bridge-connect-error", r["err"], rp))
+                elif r["phase"] == "up" and r.get("received") != "hello":
+                    res.append(("bridge-connect-error", "echo through the bridge failed while the server was up: %r" % r, rp))
+                elif r["phase"] == "down" and (not r.get("ended") or r.get("delay_ms", 10 ** 9) > BOUND_MS):
+                    res.append(("no-eof-when-server-unreachable", "the TCP server was unreachable, yet the client's bridged connection was not ended within %d ms (%s)" % (BOUND_MS, r.get("read_err", "no end seen")), rp))
                 continue
             if r["kind"] == "slow-reader":
                 rp = {"driver": "TestVerifC16SlowReader: the TCP server streams 48 MiB, the client reads 1 MiB, pauses, then reads on", "observed": r}
